@@ -236,6 +236,20 @@ def build(dest, prop_id=None, files=None):
             raise OverlayError(f"anchored source file missing: {target}")
         stem = os.path.basename(hf)[:-3]
         body = open(hf).read()
+        # stubs of crate-local functions are dropped when the function does not exist in this tree (e.g. a helper
+        # introduced by a repair and removed again by the change under test): the real code then runs un-cut
+        def _keep(line):
+            m = re.match(r"\s*#\[kani::stub\(crate::([A-Za-z0-9_:]+)::([A-Za-z0-9_]+)\s*,", line)
+            if not m or m.group(1).startswith("verif_models"):
+                return True
+            name = m.group(2)
+            for root, _d, fs_ in os.walk(os.path.join(dest, "src")):
+                for fn in fs_:
+                    if fn.endswith(".rs") and re.search(r"\bfn\s+" + name + r"\b", open(os.path.join(root, fn)).read()):
+                        return True
+            info["rewrites"].append(f"{os.path.basename(hf)}: stub of crate::{m.group(1)}::{name} dropped (function not present in this tree)")
+            return False
+        body = "\n".join(l for l in body.split("\n") if _keep(l))
         s = open(p).read()
         s += f"\n\n#[cfg(kani)]\n#[allow(unused, static_mut_refs, non_snake_case, clippy::all)]\npub mod vk_{stem} {{\n    use super::*;\n{body}\n// @@VK_END vk_{stem}\n}}\n"
         open(p, "w").write(s)
